@@ -5,6 +5,7 @@ CONSTANTS
  MaxFaults = 2
  MaxCrashes = 1
  MaxIdxLoss = 0
+ SyncFlush = TRUE
  InlineAt = 2
  Interval = 2
  MBs = {80}
